@@ -70,13 +70,17 @@ def format_field(name, typ, value):
     raise ValueError("unknown field type %r" % (typ,))
 
 
-def draw_field_list(coding, channels, sample_count, sample_rate, layout_seed, n_extra, long_extra=0):
+def draw_field_list(coding, channels, sample_count, sample_rate, layout_seed, n_extra, long_extra=0,
+                    omit_byte_format=False):
     """Mandatory fields in a seeded order interleaved with n_extra optional fields (and, when
     long_extra > 0, one string field of that many characters, which pushes later fields past
     the first 1024-byte block)."""
     rng = np.random.Generator(np.random.PCG64(layout_seed))
     mand = mandatory_fields(coding, channels, sample_count, sample_rate)
     items = [(k, mand[k][0], mand[k][1]) for k in MANDATORY]
+    if omit_byte_format and not coding.startswith("pcm"):
+        # NIST requires sample_byte_format only when sample_n_bytes > 1
+        items = [it for it in items if it[0] != "sample_byte_format"]
     n_extra = min(n_extra, len(EXTRA_POOL))
     if n_extra:
         for i in rng.choice(len(EXTRA_POOL), size=n_extra, replace=False):
@@ -126,13 +130,13 @@ def encode_data(frames, coding):
 
 
 def write_sphere(frames, coding, sample_rate=16000, blocks=None, layout_seed=0, n_extra=0,
-                 declared_count=None, long_extra=0):
+                 declared_count=None, long_extra=0, omit_byte_format=False):
     """Return the bytes of a SPHERE file holding `frames` ((n, c) array)."""
     frames = np.asarray(frames)
     n, c = frames.shape
     fields = draw_field_list(
         coding, c, n if declared_count is None else declared_count, sample_rate, layout_seed, n_extra,
-        long_extra,
+        long_extra, omit_byte_format,
     )
     return build_header(fields, blocks) + encode_data(frames, coding)
 
